@@ -88,6 +88,8 @@ def run(ctx):
             continue
         groups.append(("dfir_pipes|" + fn_key(c, b), [b] + c.closures_of(b.def_path)))
     linear_rule(ctx, c, R_LIN, groups, "C11")
+    R_TP = ctx.rule("C11.takepend", "a value taken out of a combinator's state (buffer.take(), mem::replace) is never dropped on a path that returns Pending", floor=1)
+    takepend_rule(ctx, c, R_TP, set(i.get("self_adt") for i in impls if i.get("self_adt")), "dfir_pipes")
 
     # ---- pendsrc
     R_PEND = ctx.rule("C11.pendsrc", "a combinator with upstreams returns Pending only on a path on which an upstream result was Pending in the same call", floor=15)
@@ -179,3 +181,30 @@ def run(ctx):
                 ctx.violation(R_FUSE, key + "|unguarded-pull", "the upstream pull is not guarded by the still-present test", b.loc(pb))
     if not found:
         ctx.anchor_missing(R_FUSE, "impl Pull for Fuse")
+
+
+def takepend_rule(ctx, crate, rid, adts, desc_crate):
+    """a value taken out of the adaptor's own state (Option::take / mem::take / mem::replace on a field of self) must not be dropped on a
+    path that returns Pending: the re-poll would not find it again.  Runs over every method (trait or inherent) of the given ADTs."""
+    for d, b in sorted(crate.bodies.items()):
+        if b.kind == "Closure" or crate.is_test_path(d):
+            continue
+        fn = crate.fns.get(d)
+        if not fn or not fn.get("impl"):
+            continue
+        imp = crate.impls.get(fn["impl"])
+        if not imp or imp.get("self_adt") not in adts:
+            continue
+        takes = linear.state_take_locals(b)
+        key = "%s|%s" % (crate.name, fn_key(crate, b))
+        if not takes:
+            continue
+        cnt, finds = linear.analyse(b, crate=crate, state_takes=True, only_on_pending=True)
+        names = b.var_names()
+        ctx.inst(rid, key, sites=len(takes), sample={"takes": sorted(v[1] for v in takes.values()), "pending_exits": len(linear.pending_blocks(b))})
+        by = {}
+        for kind, l, bb in finds:
+            by.setdefault(names.get(l, "_tmp"), []).append(bb)
+        for nm, bbs in sorted(by.items()):
+            ctx.violation(rid, "%s|taken-then-pending:%s" % (key, nm), "`%s` was taken out of the adaptor's state and is dropped on a path that returns Pending: the buffered value is lost when the "
+                          "downstream is not ready (the re-poll finds the state empty)" % nm, b.loc(bbs[0]), {"function": b.def_path, "drop_blocks": bbs})
